@@ -39,6 +39,13 @@ def handle (op : String) (args : List String) : Option String :=
       fun (kind, A) =>
         if A.wfb && kind ≤ 3 && (kind != 3 || A.nrows == A.ncols) then
           showPtrCRS ((crsCopy A).rows.toList.map List.length) (crsCopy A) else badInput
+  | "k_power" => withArgs (do let sc ← pBool; let it ← pNat; let A ← pCRS; pure (sc, it, A)) args
+      fun (sc, it, A) =>
+        -- the power-method branch is not modelled (thread-seeded random start vector): the implementation-side
+        -- oracle decides; the model only agrees on which inputs are admissible
+        if A.wfb && A.nrows == A.ncols && it ≥ 1 &&
+           (!sc || (List.range A.nrows).all (fun i => ((A.row i).filter (fun cv => cv.1 == i && cv.2 != 0)).length == 1))
+        then "power-ok" else badInput
   | _ => none
 
 end Amgcl.Driver.Kernels
